@@ -210,7 +210,7 @@ def check(ctx, rep):
     rep.explanation = EXPLANATION
     dispatcher(ctx, rep, 'C07a')
     front_ends(ctx, rep, 'C07c')
-    C11.index_kinds(ctx, rep, 'C07d')
+    C11.index_kinds(ctx, rep, 'C07d', methods=('slice',))
     C11.rewritten_fields(ctx, rep, 'C07d')
     C11.twins(ctx, rep, 'C07e')
     C16.overlapped_rule(ctx, rep, 'C07f')
